@@ -101,6 +101,12 @@ def _precedence(ctx: Ctx, fn: FuncInfo) -> None:  # noqa: C901
         opaque |= not concrete
         ctx.add("1-precedence", fn, cfg.stmt[n], False if concrete else None, f"the value of `{p}` is taken from `{c[1:]}`, which is none of bound / supplied / upstream output / default" if concrete else
                 f"UNDECIDED: the value of `{p}` is taken from `{c[1:]}`, which this rule cannot classify", key=f"source {c[1:40]}")
+    # a source consulted through `X.get(p, <sentinel>)` is excluded by a test of the RESULT, not by `p in X`: the membership facts
+    # this rule reads are then incomplete, and the order is not decided here
+    via_get = [c for c in ast.walk(loop) if isinstance(c, ast.Call) and isinstance(c.func, ast.Attribute) and c.func.attr == "get" and c.args and norm(c.args[0]) == p and _classify(norm(d.resolve(c.func.value)))]
+    if via_get:
+        opaque = True
+        seen_classes = seen_classes + [_classify(norm(d.resolve(c.func.value))) for c in via_get]
     ctx.tri("1-precedence", fn, loop, set(ORDER) <= set(seen_classes), False, "values come from bound, supplied, upstream outputs and defaults", "", f"sources found: {seen_classes}", key="sources")
     for n, cls in sources:
         if cls.startswith("?"):
